@@ -1255,6 +1255,14 @@ class Step(Node):
             )
         )
         self.db.executemany("DELETE FROM dynamic_dep WHERE i = ?", ((row[0],) for row in rows))
+        # The steps producing these inputs lose a sink, so their _implied_need and _tail_time
+        # must be recomputed. The dependency triggers only flag the endpoints of a deleted edge,
+        # and the propagation in Scheduler._update_meta_after() can no longer reach them.
+        self.db.executemany(
+            "UPDATE step SET _check_after = 1 "
+            "WHERE node IN (SELECT source FROM dependency WHERE sink = ?)",
+            ((row[1],) for row in rows),
+        )
         self.del_sources([self.graph.node_from_row(i, kind, label) for _, i, label, kind in rows])
 
         # Drop dynamic environment variables.
